@@ -386,13 +386,24 @@ func runDigest(r result) int64 {
 // error code of an entry of a governance request as seen in the output text (index of the entry whose key or
 // value the text names), or nil
 func observedErr(out string, g govTxn) *int {
-	for i, e := range g.Entries {
-		if g.Bad[i] && (strings.Contains(out, "'"+e[0]+"'") || strings.Contains(out, e[0]+" ") || strings.Contains(out, " "+e[0]) || (e[1] != "" && strings.Contains(out, e[1]))) {
-			k := i + 1
-			return &k
+	best, bestLen := -1, 0
+	for i, e := range g.Entries { // the key named in the text (longest match)
+		if g.Bad[i] && strings.Contains(out, e[0]) && len(e[0]) > bestLen {
+			best, bestLen = i, len(e[0])
 		}
 	}
-	return nil
+	if best < 0 {
+		for i, e := range g.Entries { // or the value, when it is distinctive
+			if g.Bad[i] && len(e[1]) >= 3 && strings.Contains(out, e[1]) && len(e[1]) > bestLen {
+				best, bestLen = i, len(e[1])
+			}
+		}
+	}
+	if best < 0 {
+		return nil
+	}
+	k := best + 1
+	return &k
 }
 
 func optZ(p *int) string {
@@ -463,7 +474,13 @@ func main() {
 			}
 			for _, g := range s.Gov {
 				var codes, obs []string
-				for i := range g.Entries {
+				// in sorted key order: the order in which the update loops visit the request
+				order := make([]int, len(g.Entries))
+				for i := range order {
+					order[i] = i
+				}
+				sort.Slice(order, func(a, b int) bool { return g.Entries[order[a]][0] < g.Entries[order[b]][0] })
+				for _, i := range order {
 					if g.Bad[i] {
 						k := i + 1
 						codes = append(codes, optZ(&k))
